@@ -13,6 +13,7 @@ from pyvc.proxies import And, Or, Not, Implies, SBool, SInt, SStr, Len
 from pyvc import strmodel
 
 LEVEL = "other"
+STANDIN_ALWAYS_THOROUGH = True      # its large bound takes seconds: used at both tiers
 EXPLANATION = ("MIXED: HTTP1Connection._format_chunk and finish proved (integer length accounting against the declared Content-Length; "
                "chunk framing as a string equation with the hex length); everything at RequestHandler level (status/header bookkeeping, automatic "
                "Content-Length, ETag/304 substitution, HEAD/204/304 body suppression, error responses) by bounded handler programs through the "
